@@ -141,6 +141,8 @@ def gen_scenario(seed, **kw) -> dict:
         # session resumption: the client offers the ticket of an earlier (priming) connection and sends part of its
         # data as 0-RTT before the handshake completes
         opts["resume"] = {}
+        if r2.random() < 0.3:
+            opts["resume_forget"] = True  # the server no longer knows the ticket: 0-RTT rejected, full handshake
         for o in script:
             if o["side"] == "client" and o["op"] == "write" and r2.random() < 0.5:
                 o["t"] = r2.choice([0.0, 0.0, 0.002])
